@@ -330,6 +330,7 @@ def gen_flat_trace(seed, faults):
     n = marathon or n
     # wide marathon: thousands of different cells (the cell map and the tables grow past 256 / 1024 / 4096 entries)
     span = R.stream(seed, "marathon-shape").choice([24, 700, 3000]) if marathon else 24
+    p_inspect = 0.03 if not marathon else R.stream(seed, "marathon-inspect").choice([0.03, 0.004])  # long stretches without a look
     for _ in range(n):
         w = r.choice(widths)
         k = r.random()
@@ -359,8 +360,8 @@ def gen_flat_trace(seed, faults):
             ops.append(["W", w, a, value(w)])
         else:
             ops.append(["R", w, a, 0])
-        if r.random() < 0.03:
+        if r.random() < p_inspect:
             ops.append(["INSPECT"])
-        if r.random() < 0.01:
+        if r.random() < (0.01 if not marathon else 0.002):
             ops.append(["RESET"])
     return {"config": cfg, "faults": bool(faults), "ops": ops}
